@@ -16,10 +16,10 @@
   `V_top`; every kernel (twiddle pass, radix-4 pass, 16-point leaf, cplx `bfs_2` passes) advances its block of
   the network (`Adv`/`IAdv`); the C loop structure (bfs levels, rec above 2048, table pointer) by induction.
 
-  Staged, NOT proved here (documented in DESIGN.md §C06.4): the a-priori rounding bound
-    fft_err : ‖fl(FFT x) − FFT x‖₂ ≤ 8·log2(2m)·2^-53·‖FFT x‖₂   (binary64, every finite input without
-    overflow/underflow, measured twiddle accuracy τ ≤ 3.11·2^-53 as an input fact);
-  the streams check this bound on every run against a `__float128` oracle (observed ≤ 9 % of the bound).
+  The a-priori rounding bound of the property (binary64) is NOT in this file: it is proved in `Properties/C06Err.lean`
+  (`reim_fft_err`, `reim_ifft_err`, `cplx_fft_err`, `cplx_ifft_err` and their `_prop` forms 8·log2(2m)·2^-53) under two
+  explicit hypotheses (stored twiddle pairs within 3.5·2^-53 of the exact roots — measured on every run by `ff_tables` —
+  and no overflow / inexact underflow); the streams also check the bound on every run against a `__float128` oracle.
 -/
 import SpqProofs.Lemmas.FftApi
 import SpqProofs.Lemmas.FftReimInvSmall
